@@ -305,7 +305,7 @@ func (e *Exec) execAssign(st *State, s *ast.AssignStmt) {
 					if vts[i] != nil {
 						v = e.coerce(st, v, vts[i], obj.Type())
 					}
-					v = e.toSort(v, e.sortOf(obj.Type()))
+					v = e.toSort(v, e.varSort(obj))
 					e.setVar(st, obj, v)
 					continue
 				}
@@ -333,7 +333,7 @@ func (e *Exec) assignTo(st *State, l ast.Expr, v Term, t types.Type) {
 		if obj == nil {
 			return
 		}
-		v = e.toSort(v, e.sortOf(obj.Type()))
+		v = e.toSort(v, e.varSort(obj))
 		if vo, ok := obj.(*types.Var); ok && vo.Pkg() != nil && vo.Parent() == vo.Pkg().Scope() {
 			e.unsupportedf(x.Pos(), "assignment to package variable %s", x.Name)
 			return
@@ -455,7 +455,7 @@ func (e *Exec) execReturn(st *State, s *ast.ReturnStmt) {
 			}
 		}
 		for i, o := range resObjs {
-			st.vars[o] = e.bind("res", e.toSort(vals[i], e.sortOf(o.Type())))
+			st.vars[o] = e.bind("res", e.toSort(vals[i], e.resultSort(e.curContract(), i, o.Type())))
 		}
 	}
 	// find the innermost inline frame, if any
@@ -769,7 +769,7 @@ func (e *Exec) loopHavoc(st *State, spec *LoopSpec, vars []*types.Var, run func(
 			continue
 		}
 		if _, ok := dry.vars[v]; ok {
-			dry.vars[v] = e.fresh(v.Name(), e.sortOf(v.Type()))
+			dry.vars[v] = e.fresh(v.Name(), e.varSort(v))
 		}
 	}
 	e.dry++
@@ -841,7 +841,7 @@ func (e *Exec) loopHavoc(st *State, spec *LoopSpec, vars []*types.Var, run func(
 			continue
 		}
 		if _, ok := st.vars[v]; ok {
-			nv := e.fresh(v.Name(), e.sortOf(v.Type()))
+			nv := e.fresh(v.Name(), e.varSort(v))
 			e.assumeGlobal(e.rangeFact(nv, v.Type()))
 			st.vars[v] = nv
 		}
@@ -1203,4 +1203,11 @@ func sortStrings(a []string) {
 			a[j], a[j-1] = a[j-1], a[j]
 		}
 	}
+}
+
+func (e *Exec) curContract() *Contract {
+	if e.depth > 0 {
+		return e.inlineContract
+	}
+	return e.contract
 }
